@@ -147,3 +147,99 @@ def check_cmd_step(ch, fam, step, res, model, desc):
 
 def dcmi_strip(cmd, payload_hex):
     return payload_hex
+
+
+# ---------------------------------------------------------------------------------------------
+# C05 (pipeline level) and C17 (connection level), called from vlib/c05.py and vlib/c17.py
+def c05_pipeline(ch, build):
+    """substitute the reply at every position of a session-less command, of each handshake exchange and of an
+    in-session command by {every prefix of the genuine reply, the genuine reply with each byte replaced by 00 / FF,
+    random bytes}; predicate: no panic, a value or an error is returned; tie: the Coq retry / handshake model."""
+    from . import hist, hs
+    rng = ch.rng
+    su = (1, 1, 1)
+    def base(seed):
+        return {"bmc": default_bmc(seed=seed, suites=[[3, 1, 1, 1]]), "timeout_ms": 40}
+    # learn the genuine reply lengths
+    probe = base(70)
+    probe["steps"] = [{"op": "cmd", "conn": "sessionless", "cmd": {"name": "authcaps", "p": [1, 14, 4]}, "script": ["ok"]},
+                      hs.open_step(suites=[su]),
+                      {"op": "cmd", "conn": "session", "cmd": {"name": "getdeviceid"}, "script": ["ok"]}]
+    po = run_scenarios([probe])[0]
+    lens = {"sl": len(po["steps"][0]["delivered"][0]) // 2,
+            "hs": [len(d) // 2 for d in po["steps"][1]["delivered"]],
+            "ss": len(po["steps"][2]["delivered"][0]) // 2}
+    def muts(n):
+        m = ["trunc:%d" % k for k in range(n)] + ["setbytes:%d=0" % k for k in range(n)] + ["setbytes:%d=255" % k for k in range(n)]
+        m += ["garbage"] * 8
+        return m if not ch.quick() else rng.sample(m, min(len(m), 40))
+    scns = []
+    # session-less command
+    s = base(70); s["steps"] = [{"op": "cmd", "conn": "sessionless", "cmd": {"name": "authcaps", "p": [1, 14, 4]}, "script": [mu, "ok"]} for mu in muts(lens["sl"])]
+    scns.append(s)
+    # handshake: one mutated reply per attempt to open
+    for ex, n in enumerate(lens["hs"]):
+        for mu in muts(n):
+            s = base(70); s["steps"] = [hs.open_step(suites=[su], script=["ok"] * ex + [mu])]; s["hs"] = True
+            scns.append(s)
+    # in-session command
+    ms = muts(lens["ss"])
+    for i in range(0, len(ms), 40):
+        s = base(70); s["steps"] = [hs.open_step(suites=[su])] + [
+            {"op": "cmd", "conn": "session", "cmd": {"name": "getdeviceid"}, "script": [mu, "ok"]} for mu in ms[i:i + 40]]
+        scns.append(s)
+    outs = run_scenarios(scns)
+    hs_lines, hidx = [], []
+    for scn, out in zip(scns, outs):
+        for ti, (st, res) in enumerate(zip(scn["steps"], out["steps"])):
+            ch.note_case("pipeline-" + st["op"] + ("-" + st.get("conn", "") if st["op"] == "cmd" else ""), "%s|%s" % (st.get("script"), st.get("cmd")))
+            if res.get("panic") or res["err"] == "panic":
+                ch.violation({"kind": "pipeline", "op": st["op"], "conn": st.get("conn")},
+                             {"scenario": scn, "step_index": ti, "panic": res.get("panic"), "what": "a substituted reply made the library panic"})
+        if scn.get("hs"):
+            hs_lines.append(hs.hs_line(scn["steps"][0], out["steps"][0], su)); hidx.append((scn, out))
+    hist.replay(ch, [s for s in scns if not s.get("hs")], [o for s, o in zip(scns, outs) if not s.get("hs")], (), "pipeline")
+    for (scn, out), mo in zip(hidx, core.oracle(hs_lines)):
+        hs.tie_open(ch, "pipeline", scn, scn["steps"][0], out["steps"][0], mo, su, {"kind": "pipeline", "op": "open"})
+    ch.extra["pipeline_scenarios"] = len(scns)
+
+
+STATELESS = [{"name": "getdeviceid"}, {"name": "getchassisstatus"}, {"name": "getsystemguid"}, {"name": "authcaps", "p": [1, 14, 4]},
+             {"name": "ciphersuites", "p": [14, 0, 0]}, {"name": "getsdrrepoinfo"}, {"name": "powerreading", "p": [1, 0]},
+             {"name": "dcmicaps", "p": [1]}, {"name": "sensorreading", "p": [1, 0]}, {"name": "getsdr", "p": [0, 0, 0, 5]},
+             {"name": "dcmisensorinfo", "p": [1, 65, 0, 1]}, {"name": "sessioninfo", "p": [0, 0, 0]}]
+
+
+def c17_connection(ch, build):
+    """every ordered pair (A, B): A (any command, with clean / faulty replies) then B on one connection or session, versus B
+    alone on a fresh one; predicate: B returns the same result and (session-less) transmits the same datagram."""
+    from . import hist, hs
+    rng = ch.rng
+    scns, meta = [], []
+    for session in (False, True):
+        poolA = [c for c in hist.command_pool(rng, session)]
+        pairs = [(a, b) for a in poolA for b in STATELESS]
+        if ch.quick():
+            pairs = rng.sample(pairs, 80)
+        for k, (a, b) in enumerate(pairs):
+            su = hist.SUITES[k % 9]
+            cn = "session" if session else "sessionless"
+            sa = rng.choice([["ok"], ["ok"], ["garbage", "ok"], ["busy", "ok"], ["truncbody"], ["cc:201"]])
+            pre = [hs.open_step(suites=[su])] if session else []
+            both = {"bmc": default_bmc(seed=300 + k, suites=[[100, su[0], su[1], su[2]]], loose=True), "timeout_ms": 40,
+                    "steps": pre + [{"op": "cmd", "conn": cn, "cmd": a, "script": sa}, {"op": "cmd", "conn": cn, "cmd": b, "script": ["ok"]}]}
+            alone = {"bmc": both["bmc"], "timeout_ms": 40, "steps": pre + [{"op": "cmd", "conn": cn, "cmd": b, "script": ["ok"]}]}
+            scns += [both, alone]; meta.append((session, a, b))
+    outs = run_scenarios(scns)
+    for k, (session, a, b) in enumerate(meta):
+        ob, oa = outs[2 * k], outs[2 * k + 1]
+        rb, ra = ob["steps"][-1], oa["steps"][-1]
+        desc = {"kind": "connection-reuse", "conn": "session" if session else "sessionless", "a": a["name"], "b": b["name"]}
+        ch.note_case("reuse-" + desc["conn"], "%s|%s" % (a, b))
+        same = (rb["err"], rb["code"], rb["rsp"]) == (ra["err"], ra["code"], ra["rsp"])
+        if not session:
+            same = same and rb["sent"] == ra["sent"]
+        if not same:
+            ch.violation(desc, {"scenario": scns[2 * k], "what": "the same command gives a different result (or datagram) after another command",
+                                "after": {k2: rb[k2] for k2 in ("err", "code", "rsp", "sent")}, "fresh": {k2: ra[k2] for k2 in ("err", "code", "rsp", "sent")}})
+    hist.replay(ch, scns, outs, (), "reuse")
